@@ -31,6 +31,9 @@ pub fn nfa_to_dfa<A: Clone>(nfa: &NFA<A>) -> DFA<DfaStateIdx, A> {
     let mut finished_dfa_states: Set<DfaStateIdx> = Default::default();
 
     while let Some(current_nfa_states) = work_list.pop() {
+        #[cfg(feature = "verif")]
+        crate::verif::tick("nfa_to_dfa");
+
         let current_dfa_state = match state_map.get(&current_nfa_states) {
             None => {
                 let dfa_state = dfa.new_state();
